@@ -594,3 +594,22 @@ mod tests {
         assert!(text.contains("Test message"));
     }
 }
+
+#[cfg(all(kani, fuellabs_fuel_vm_verif))]
+impl Bug {
+    /// Verification hook: `Bug::new` without `Location::caller()` (Kani 0.68 does not
+    /// support `caller_location`); used as a `#[kani::stub]` target only.
+    pub(crate) fn verif_new(variant: BugVariant) -> Self {
+        Self {
+            location: String::new(),
+            variant,
+            inner_message: None,
+            #[cfg(feature = "backtrace")]
+            bt: backtrace::Backtrace::new(),
+        }
+    }
+    /// Verification hook: the variant of this bug.
+    pub(crate) fn verif_variant(&self) -> BugVariant {
+        self.variant
+    }
+}
